@@ -5,9 +5,16 @@ import (
 
 	"verifharness/replay"
 
+	"github.com/Fantom-foundation/lachesis-base/common/bigendian"
+	"github.com/Fantom-foundation/lachesis-base/common/littleendian"
+	"github.com/Fantom-foundation/lachesis-base/eventcheck"
+	"github.com/Fantom-foundation/lachesis-base/eventcheck/basiccheck"
+	"github.com/Fantom-foundation/lachesis-base/eventcheck/epochcheck"
+	"github.com/Fantom-foundation/lachesis-base/eventcheck/parentscheck"
 	"github.com/Fantom-foundation/lachesis-base/hash"
 	"github.com/Fantom-foundation/lachesis-base/inter/dag"
 	"github.com/Fantom-foundation/lachesis-base/inter/idx"
+	"github.com/Fantom-foundation/lachesis-base/inter/pos"
 	"github.com/Fantom-foundation/lachesis-base/utils/piecefunc"
 )
 
@@ -134,5 +141,183 @@ func (in *eventIDInst) Project() interface{} {
 }
 
 func SeqObjAdapters() []replay.Adapter {
-	return []replay.Adapter{{Name: "piecefunc-seq", New: newPieceSeq}, {Name: "eventid", New: newEventID}}
+	return []replay.Adapter{{Name: "piecefunc-seq", New: newPieceSeq}, {Name: "eventid", New: newEventID},
+		{Name: "eventcheck-seq", New: newCheckSeq}, {Name: "codec-seq", New: newCodecSeq}}
+}
+
+// ---------------------------------------------------------------- C13: one long-lived eventcheck.Checkers with a changing reader (EventCheckSeq.tla)
+
+type mutReader struct {
+	v *pos.Validators
+	e idx.Epoch
+}
+
+func (r *mutReader) GetEpochValidators() (*pos.Validators, idx.Epoch) { return r.v, r.e }
+
+type checkSeqInst struct {
+	rd *mutReader
+	ch eventcheck.Checkers
+	h  []interface{}
+}
+
+func (in *checkSeqInst) setReader(epoch float64, vals interface{}) {
+	ids := []idx.ValidatorID{}
+	for _, x := range ints(vals) {
+		ids = append(ids, idx.ValidatorID(x))
+	}
+	in.rd.v, in.rd.e = pos.EqualWeightValidators(ids, 1), idx.Epoch(epoch)
+}
+
+func (in *checkSeqInst) validate(ev interface{}) bool {
+	m, _ := ev.(map[string]interface{})
+	g := func(k string) uint32 { f, _ := m[k].(float64); return uint32(f) }
+	v := evVec{E: evFields{Creator: g("creator"), Epoch: g("epoch"), Seq: g("seq"), Frame: g("frame"), Lamport: g("lamport")}}
+	e, parents := v.events()
+	return in.ch.Validate(e, parents) == nil
+}
+
+func (in *checkSeqInst) do(op map[string]interface{}) (map[string]interface{}, error) {
+	switch op["op"] {
+	case "setreader":
+		ep, _ := op["epoch"].(float64)
+		in.setReader(ep, op["vals"])
+		in.h = append(in.h, map[string]interface{}{"op": "setreader", "epoch": op["epoch"], "vals": op["vals"]})
+		return map[string]interface{}{}, nil
+	case "validate":
+		res := in.validate(op["e"])
+		in.h = append(in.h, map[string]interface{}{"op": "validate", "e": op["e"]})
+		return map[string]interface{}{"res": res}, nil
+	}
+	return nil, fmt.Errorf("unknown op %v", op["op"])
+}
+
+func newCheckSeq(pre interface{}) (replay.Inst, error) {
+	p := pre.(map[string]interface{})
+	in := &checkSeqInst{rd: &mutReader{}, h: []interface{}{}}
+	in.setReader(5, []interface{}{float64(1), float64(2)}) // EventCheckSeq!Init
+	// ONE Checkers value for the whole history
+	in.ch = eventcheck.Checkers{Basiccheck: basiccheck.New(), Epochcheck: epochcheck.New(in.rd), Parentscheck: parentscheck.New()}
+	hist, _ := p["h"].([]interface{})
+	for _, o := range hist {
+		if _, err := in.do(o.(map[string]interface{})); err != nil {
+			return nil, err
+		}
+	}
+	return in, nil
+}
+
+func (in *checkSeqInst) Close() {}
+func (in *checkSeqInst) Apply(act map[string]interface{}) (map[string]interface{}, error) {
+	return in.do(act)
+}
+func (in *checkSeqInst) Project() interface{} {
+	ids := []uint32{}
+	for _, id := range in.rd.v.SortedIDs() {
+		ids = append(ids, uint32(id))
+	}
+	return map[string]interface{}{"cur": uint32(in.rd.e), "vals": replay.Set(toIfaceU(ids)), "h": in.h}
+}
+
+func toIfaceU(a []uint32) []interface{} {
+	out := make([]interface{}, len(a))
+	for i, x := range a {
+		out[i] = x
+	}
+	return out
+}
+
+// ---------------------------------------------------------------- C32: encoders/decoders under a hostile caller (CodecSeq.tla)
+
+type codecSeqInst struct {
+	w, prev int
+}
+
+// scribble is what a caller may do with a slice it was handed: overwrite it and append to it.
+func scribble(b []byte) {
+	for i := range b {
+		b[i] ^= 0xFF
+	}
+	b = append(b, 0xAA, 0xBB, 0xCC, 0xDD, 0xEE, 0xFF, 0xAB, 0xCD)
+	if len(b) > 0 {
+		b[0] ^= 0x55
+	}
+}
+
+func encoders(w int, n uint64) (be, le []byte, idxs [][]byte) {
+	switch w {
+	case 2:
+		return bigendian.Uint16ToBytes(uint16(n)), littleendian.Uint16ToBytes(uint16(n)), nil
+	case 4:
+		m := uint32(n)
+		return bigendian.Uint32ToBytes(m), littleendian.Uint32ToBytes(m), [][]byte{idx.Epoch(m).Bytes(), idx.Event(m).Bytes(),
+			idx.Lamport(m).Bytes(), idx.Frame(m).Bytes(), idx.Pack(m).Bytes(), idx.ValidatorID(m).Bytes()}
+	}
+	return bigendian.Uint64ToBytes(n), littleendian.Uint64ToBytes(n), [][]byte{idx.Block(n).Bytes()}
+}
+
+func decoders(w int, be, le []byte) (vbe, vle uint64) {
+	switch w {
+	case 2:
+		return uint64(bigendian.BytesToUint16(be)), uint64(littleendian.BytesToUint16(le))
+	case 4:
+		return uint64(bigendian.BytesToUint32(be)), uint64(littleendian.BytesToUint32(le))
+	}
+	return bigendian.BytesToUint64(be), littleendian.BytesToUint64(le)
+}
+
+func (in *codecSeqInst) enc(n uint64, act map[string]interface{}) map[string]interface{} {
+	be, le, idxs := encoders(in.w, n)
+	out := map[string]interface{}{"be": bytesToInts(be), "le": bytesToInts(le)}
+	same := true
+	for _, x := range idxs {
+		same = same && string(x) == string(be)
+	}
+	out["idx_same_as_be"] = same
+	// the hostile caller
+	scribble(be)
+	scribble(le)
+	for _, x := range idxs {
+		scribble(x)
+	}
+	if act != nil {
+		// decoding the specification's bytes, twice from the same buffer
+		bb, lb := toBytes(ints(act["be"])), toBytes(ints(act["le"]))
+		b0, l0 := string(bb), string(lb)
+		v1, u1 := decoders(in.w, bb, lb)
+		v2, u2 := decoders(in.w, bb, lb)
+		out["dec_be"], out["dec_be_again"], out["be_input_unchanged"] = v1, v2, string(bb) == b0
+		out["dec_le"], out["dec_le_again"], out["le_input_unchanged"] = u1, u2, string(lb) == l0
+	}
+	in.prev = int(n)
+	return out
+}
+
+func bytesToInts(b []byte) []int {
+	out := make([]int, len(b))
+	for i, x := range b {
+		out[i] = int(x)
+	}
+	return out
+}
+
+func newCodecSeq(pre interface{}) (replay.Inst, error) {
+	p := pre.(map[string]interface{})
+	w, _ := p["w"].(float64)
+	in := &codecSeqInst{w: int(w), prev: -1}
+	if pv, _ := p["prev"].(float64); pv >= 0 {
+		in.enc(uint64(pv), nil)
+	}
+	return in, nil
+}
+
+func (in *codecSeqInst) Close() {}
+func (in *codecSeqInst) Apply(act map[string]interface{}) (map[string]interface{}, error) {
+	if act["op"] != "enc" {
+		return nil, fmt.Errorf("unknown op %v", act["op"])
+	}
+	n, _ := act["n"].(float64)
+	return in.enc(uint64(n), act), nil
+}
+func (in *codecSeqInst) Project() interface{} {
+	return map[string]interface{}{"w": in.w, "prev": in.prev}
 }
